@@ -27,6 +27,8 @@ CHECKS = {
              note="trusted: the dependency decoder is a stub with the contract of the function actually called (consensus_decode may leave bytes unread, deserialize may not); native witnesses (valid, valid+trailing byte, garbage, truncated, flag/network refusals) are run through the real endpoint"),
  'C13': dict(text="symbolic execution of the compiled heartbeat / maybe_fetch_blocks state machines (poll functions), the guard, the request builder, the response bookkeeping and maybe_process_response over every schedule of up to 8/10 events (start a heartbeat / deliver a reply to a suspended one, two overlapping), reply kinds chosen at delivery, the announced number of follow-ups a symbolic u8: one request outstanding, follow-ups 0,1,2.., reassembly = concatenation, clean state after reject, no blob processed twice, no trap, progress with a well-behaved source",
              note="trusted: get_successors transport and candid (stub future that suspends once); block decoding and insert_block are recorders (C10); upgrades while a request is in flight are outside; reply scripts are also run through the real heartbeat of the host build"),
+ 'C10': dict(text="symbolic execution of maybe_process_response + insert_block + ValidationContext::new + unstable_blocks::push (+ tree / cache / announced-header bookkeeping) on every tree up to 3/4 blocks and every response of up to 2/3 blocks (decodes?, parent among tree blocks / earlier response blocks / stable-only / unknown, re-send of an existing block, validator verdict): admitted iff new, connected, valid and all earlier ones admitted; exactly one error counter on the first failure, rest dropped, cache = tree, no trap; insert_next_block_headers on every 3-header script; the canister's HeaderStore implementation with symbolic stable height",
+             note="trusted: validator verdicts are stubs (C11, C12 decide them), byte-level decoding, insert_outpoints (C20); real blocks (valid, duplicate, orphan, garbage, truncated, bad merkle root) are run through the real heartbeat natively"),
 }
 NA = {
 }
